@@ -268,7 +268,7 @@ func runC20(c *core.Ctx) {
 				if !core.Feasible(r) || len(r.Results) != 1 {
 					continue
 				}
-				if cst, ok := r.Results[0].(*ssa.Const); ok && cst.Int64() == 0 {
+				if cst, ok := asConst(r.Results[0]); ok && cst.Int64() == 0 {
 					continue
 				}
 				v := r.Results[0]
